@@ -454,6 +454,43 @@ Proof.
     reflexivity.
 Qed.
 
+(* ---- backtick strings: verbatim between backticks ---- *)
+
+Lemma lex_rune_btick : forall s r, l_state s = LBacktickString ->
+  lex_rune s r = let s1 := ring_push r s in
+                 if r =? 96 then LOk (set_state LNormal (dump_as TBacktickString s1)) else LOk (write_rune r s1).
+Proof. intros s r H. dst s; prj. subst st. reflexivity. Qed.
+
+Lemma step_bt_open : forall s t p, view s LNormal [] t p ->
+  exists s1, lex_rune s 96 = LOk s1 /\ view s1 LBacktickString [] (t ++ [mkTok TBeginBacktickString []]) 96.
+Proof.
+  intros s t p V. rewrite lex_rune_normal by apply V.
+  apply (push_view _ _ _ _ _ 96) in V. apply pview_view in V. set (s1 := ring_push 96 s) in *. clearbody s1.
+  unfold lex_normal. cbn [Z.eqb Pos.eqb orb andb]. rewrite (v_buf _ _ _ _ _ V).
+  eexists; split; [reflexivity|]. apply view_append_token. eapply view_set_state. eassumption.
+Qed.
+
+Lemma run_bt : forall cs s b t p, Forall (fun c => c <> 96) cs -> view s LBacktickString b t p ->
+  exists s1 q, lex_all s cs = LOk s1 /\ view s1 LBacktickString (b ++ cs) t q.
+Proof.
+  induction cs as [|c cs IH]; intros s b t p F V.
+  - exists s, p. split; [reflexivity|]. rewrite app_nil_r. exact V.
+  - inversion F; subst.
+    assert (exists s1, lex_rune s c = LOk s1 /\ view s1 LBacktickString (b ++ [c]) t c) as [s1 [E1 V1]].
+    { rewrite lex_rune_btick by apply V. cbv zeta. apply (push_view _ _ _ _ _ c) in V. apply pview_view in V.
+      kill_eqb c. eexists; split; [reflexivity|]. apply view_write_rune; assumption. }
+    destruct (IH s1 (b ++ [c]) t c H2 V1) as [s2 [q [E2 V2]]].
+    exists s2, q. split; [simpl; rewrite E1; exact E2|]. rewrite <- app_assoc in V2. exact V2.
+Qed.
+
+Lemma step_bt_close : forall s b t p, view s LBacktickString b t p ->
+  exists s1, lex_rune s 96 = LOk s1 /\ view s1 LNormal [] (t ++ [mkTok TBacktickString b]) 96.
+Proof.
+  intros s b t p V. rewrite lex_rune_btick by apply V. cbv zeta. change (96 =? 96) with true. cbv iota.
+  apply (push_view _ _ _ _ _ 96) in V. apply pview_view in V.
+  eexists; split; [reflexivity|]. eapply view_set_state. apply view_dump_as. eassumption.
+Qed.
+
 (* ======== Part 2: regex facts ======== *)
 
 Lemma matches_Empty : forall s b, matches_from b Empty s = false.
